@@ -5,14 +5,19 @@ pub mod c01;
 pub mod c02;
 pub mod c03;
 pub mod c04;
+pub mod c05;
+pub mod c06;
 pub mod c08;
+pub mod c09;
 pub mod c11;
+pub mod c12;
 pub mod c13;
 pub mod c14;
 pub mod c15;
+pub mod c17;
 
 /// Properties served by the `vcheck` binary.
-pub const IDS: &[&str] = &["C01", "C02", "C03", "C04", "C07", "C08", "C11", "C13", "C14", "C15"];
+pub const IDS: &[&str] = &["C01", "C02", "C03", "C04", "C05", "C06", "C07", "C08", "C09", "C10", "C11", "C12", "C13", "C14", "C15", "C17"];
 
 /// Committed regression replays (/verif/regressions/<ID>-*.json): shrunk failing cases of
 /// defects found earlier; re-run first, bypassing the generators.
@@ -50,12 +55,18 @@ pub fn run(prop: &str, tier: Tier) -> i32 {
         "C02" => c02::run(&mut ctx),
         "C03" => c03::run(&mut ctx),
         "C04" => c04::run(&mut ctx),
+        "C05" => c05::run(&mut ctx),
+        "C06" => c06::run(&mut ctx),
         "C07" => c01::run(&mut ctx, c01::Mode::Category),
         "C08" => c08::run(&mut ctx),
+        "C09" => c09::run(&mut ctx, c09::Mode::Total),
+        "C10" => c09::run(&mut ctx, c09::Mode::Content),
         "C11" => c11::run(&mut ctx),
+        "C12" => c12::run(&mut ctx),
         "C13" => c13::run(&mut ctx),
         "C14" => c14::run(&mut ctx),
         "C15" => c15::run(&mut ctx),
+        "C17" => c17::run(&mut ctx),
         _ => {
             eprintln!("unknown property {}", prop);
             return 2;
@@ -90,12 +101,18 @@ pub fn replay(prop: &str, path: &str) -> i32 {
         "C02" => c02::replay(&stream, path, &case),
         "C03" => c03::replay(&stream, path, &case),
         "C04" => c04::replay(&stream, path, &case),
+        "C05" => c05::replay(&stream, path, &case),
+        "C06" => c06::replay(&stream, path, &case),
         "C07" => c01::replay(c01::Mode::Category, &stream, path, &case),
         "C08" => c08::replay(&stream, path, &case),
+        "C09" => c09::replay(c09::Mode::Total, &stream, path, &case),
+        "C10" => c09::replay(c09::Mode::Content, &stream, path, &case),
         "C11" => c11::replay(&stream, path, &case),
+        "C12" => c12::replay(&stream, path, &case),
         "C13" => c13::replay(&stream, path, &case),
         "C14" => c14::replay(&stream, path, &case),
         "C15" => c15::replay(&stream, path, &case),
+        "C17" => c17::replay(&stream, path, &case),
         _ => {
             eprintln!("unknown property {}", prop);
             2
